@@ -2,6 +2,7 @@ import Rustemo.Proofs.AstShapes
 import Rustemo.Proofs.AstSkel
 import Rustemo.Proofs.AstDfs
 import Rustemo.Proofs.AstStack
+import Rustemo.Proofs.AstBool
 /-!
 # Concrete instances used by Props/C10.lean and Props/C11.lean (non-vacuity, counterexamples)
 -/
@@ -101,6 +102,24 @@ def gVecAlt : AGrammar :=
     prods := [ ⟨"S", none, 2, [kw "KA", ns "V"]⟩,
                ⟨"V", none, 2, [ns "V", cs "Num"]⟩, ⟨"V", none, 1, [ns "W"]⟩, ⟨"V", none, 1, [cs "Num"]⟩,
                ⟨"W", none, 2, [kw "KB", ns "W"]⟩, ⟨"W", none, 1, [cs "Id"]⟩ ] }
+
+def rNeg : RSym := { name := "KA", isTerm := true, content := false, label := some "neg", isBool := true }
+def pNeg : AProd := ⟨"A", none, 2, [rNeg, cs "Num" (some "n")]⟩
+
+/-- `S: A+; A: neg?=KA n=Num | KB pos?=Id m=Num;` (the sugar written out): `?=` on a keyword and on a regex terminal -/
+def gBool : AGrammar :=
+  { loc := false, rn := false, start := "S",
+    terms := [⟨"KA", false, true⟩, ⟨"KB", false, true⟩, ⟨"Num", true, true⟩, ⟨"Id", true, true⟩],
+    nts := [⟨"S", true, false⟩, ⟨"A1", true, true⟩, ⟨"A", true, false⟩],
+    prods := [ ⟨"S", none, 1, [ns "A1"]⟩,
+               ⟨"A1", none, 2, [ns "A1", ns "A"]⟩, ⟨"A1", none, 1, [ns "A"]⟩,
+               pNeg,
+               ⟨"A", none, 3, [kw "KB", { name := "Id", isTerm := true, content := true, label := some "pos", isBool := true },
+                               cs "Num" (some "m")]⟩ ] }
+
+/-- parse tree of `KA 1 KB x 3` -/
+def tBool : PTree :=
+  .node 0 [.node 1 [.node 2 [.node 3 [.leaf 1 "KA", .leaf 3 "1"]], .node 4 [.leaf 2 "KB", .leaf 4 "x", .leaf 3 "3"]]]
 
 /-- `S: C Num; C: Id Id | KA;` with `builder_loc_info` — the rule name `C` met the header alias `Context as C` -/
 def gRuleC : AGrammar :=
